@@ -22,6 +22,10 @@ def POp (res : EvaluationResult) (ps : List Rec) : Prop :=
   | .emptyQueryResult s => VC ps = [] ∨ ∃ b, VC ps = [boolStatus b] ∧ s = boolStatus b
   | .queryValueResult rs => (VC ps).map (· == Status.pass) = rs.map (·.2)
 
+/-- besides filter records, only value-check leaves -/
+def AllVC (ps : List Rec) : Prop := (lineRecs ps).all isValueCheck = true
+def POpV (res : EvaluationResult) (ps : List Rec) : Prop := POp res ps ∧ AllVC ps
+
 structure AllInv (env : Env) (fuel : Nat) : Prop where
   qr : ∀ qi query current conv, InvF (queryRetrieval env fuel qi query current conv)
   acc : ∀ parent qi query elements conv, InvF (accumulate env fuel parent qi query elements conv)
@@ -35,8 +39,8 @@ structure AllInv (env : Env) (fuel : Nat) : Prop where
   alts : ∀ l, Inv (evalAlternatives env fuel l) (fun sts ps => PAlts sts ps ∧ (l ≠ [] → sts ≠ []) ∧ sts.length ≤ l.length)
   clause : ∀ c, Inv (evalClause env fuel c) PClause
   block : ∀ lets c, Inv (evalGeneralBlock env fuel lets c) PCnf
-  unary : ∀ q op opNot inverse msg, Inv (unaryOperation env fuel q op opNot inverse msg) POp
-  binary : ∀ q rhs op opNot msg, Inv (binaryOperation env fuel q rhs op opNot msg) POp
+  unary : ∀ q op opNot inverse msg, Inv (unaryOperation env fuel q op opNot inverse msg) POpV
+  binary : ∀ q rhs op opNot msg, Inv (binaryOperation env fuel q rhs op opNot msg) POpV
   pcall : ∀ rule neg msg params, Inv (evalParamCall env fuel rule neg msg params) PClause
   rstat : ∀ name, Inv (ruleStatus env fuel name) (fun _ ps => AllRule ps)
   fns : ∀ rules, Inv (firstNonSkip env fuel rules) (fun _ ps => AllRule ps)
@@ -595,8 +599,27 @@ theorem reportVER_good (op : CmpOp) (opNot : Bool) (msg : Option Str) (v : VER) 
       | value l r => simp [reportVER] at he; subst he; exact ⟨⟨_, rfl⟩, by simp [Rec.status, RecKind.status?]⟩
       | valueIn l r => simp [reportVER] at he; subst he; exact ⟨⟨_, rfl⟩, by simp [Rec.status, RecKind.status?]⟩
 
+theorem AllVC_nil : AllVC [] := rfl
+
+theorem AllVC_onlyF {ps : List Rec} (h : OnlyF ps) : AllVC ps := by
+  unfold AllVC; unfold OnlyF at h; rw [h]; rfl
+
+theorem AllVC_append {a b : List Rec} (ha : AllVC a) (hb : AllVC b) : AllVC (a ++ b) := by
+  unfold AllVC at *; rw [lineRecs_append, List.all_append, ha, hb]; rfl
+
+theorem AllVC_leaf (c : ClauseCheck) : AllVC [Rec.node (.clauseValueCheck c) []] := by
+  simp [AllVC, lineRecs, Rec.kind, RecKind.isFilter, isValueCheck]
+
+theorem AllVC_leaves {γ} : ∀ (es : List (RecKind × QR × γ)), (∀ e ∈ es, ∃ c, e.1 = .clauseValueCheck c) → AllVC (leaves es)
+  | [], _ => rfl
+  | e :: es, h => by
+    obtain ⟨c, hc⟩ := h e (by simp)
+    have ih := AllVC_leaves es fun e' he' => h e' (List.mem_cons_of_mem _ he')
+    have : leaves (e :: es) = [Rec.node (.clauseValueCheck c) []] ++ leaves es := by simp [leaves, hc]
+    rw [this]; exact AllVC_append (AllVC_leaf c) ih
+
 theorem cf_binary (env : Env) (fuel : Nat) (ih : AllInv env fuel) (q : List QueryPart) (rhs : List QR) (op : CmpOp)
-    (opNot : Bool) (msg : Option Str) : Inv (binaryOperation env (fuel + 1) q rhs op opNot msg) POp := by
+    (opNot : Bool) (msg : Option Str) : Inv (binaryOperation env (fuel + 1) q rhs op opNot msg) POpV := by
   simp only [binaryOperation]
   intro st res st' h
   obtain ⟨lhs, s1, h1, h2⟩ := M.bind_ok h
@@ -608,7 +631,7 @@ theorem cf_binary (env : Env) (fuel : Nat) (ih : AllInv env fuel) (q : List Quer
   | skip =>
     simp only at h4
     obtain ⟨rfl, rfl⟩ := M.pure_ok h4
-    exact ⟨ps1, e1, c1, Or.inl (VC_onlyF f1)⟩
+    exact ⟨ps1, e1, c1, Or.inl (VC_onlyF f1), AllVC_onlyF f1⟩
   | result rs =>
     simp only at h4
     obtain ⟨_, s3, h5, h6⟩ := M.bind_ok h4
@@ -625,6 +648,7 @@ theorem cf_binary (env : Env) (fuel : Nat) (ih : AllInv env fuel) (q : List Quer
     obtain ⟨ps2, e2, c2, p2⟩ := hemit s1 _ s3 h5'
     refine ⟨ps1 ++ ps2, by rw [es3, e2, e1, List.reverse_append, List.append_assoc], by rw [consList_append, c1, c2]; rfl, ?_⟩
     rw [eres]
+    refine ⟨?_, AllVC_append (AllVC_onlyF f1) (by rw [p2]; exact AllVC_leaves _ (fun e he => (hgood e he).1))⟩
     simp only [POp]
     rw [VC_append, VC_onlyF f1, p2, VC_leaves _ (fun e he => (hgood e he).1)]
     simp only [List.nil_append, List.map_map]
@@ -642,8 +666,8 @@ def PEach (r : QR × Bool) (ps : List Rec) : Prop :=
   ∃ c, ps = [Rec.node (.clauseValueCheck c) []] ∧ ((Rec.node (.clauseValueCheck c) []).status == Status.pass) = r.2
 
 theorem inv_mapM_each {α} {f : α → M (QR × Bool)} (hf : ∀ a, Inv (f a) PEach) : ∀ (l : List α),
-    Inv (l.mapM f) (fun rs ps => (VC ps).map (· == Status.pass) = rs.map (·.2))
-  | [] => by rw [List.mapM_nil]; exact inv_pure _ rfl
+    Inv (l.mapM f) (fun rs ps => (VC ps).map (· == Status.pass) = rs.map (·.2) ∧ AllVC ps)
+  | [] => by rw [List.mapM_nil]; exact inv_pure _ ⟨rfl, AllVC_nil⟩
   | a :: l => by
     rw [List.mapM_cons]
     intro st res st' h
@@ -651,8 +675,9 @@ theorem inv_mapM_each {α} {f : α → M (QR × Bool)} (hf : ∀ a, Inv (f a) PE
     obtain ⟨rs, s2, h3, h4⟩ := M.bind_ok h2
     obtain ⟨eres, es⟩ := M.pure_ok h4
     obtain ⟨ps1, e1, c1, c, hps, hb⟩ := hf a st r s1 h1
-    obtain ⟨ps2, e2, c2, p2⟩ := inv_mapM_each hf l s1 rs s2 h3
-    refine ⟨ps1 ++ ps2, by rw [es, e2, e1, List.reverse_append, List.append_assoc], by rw [consList_append, c1, c2]; rfl, ?_⟩
+    obtain ⟨ps2, e2, c2, p2, v2⟩ := inv_mapM_each hf l s1 rs s2 h3
+    refine ⟨ps1 ++ ps2, by rw [es, e2, e1, List.reverse_append, List.append_assoc], by rw [consList_append, c1, c2]; rfl, ?_,
+      AllVC_append (by rw [hps]; exact AllVC_leaf c) v2⟩
     show (VC (ps1 ++ ps2)).map (· == Status.pass) = res.map (·.2)
     rw [eres, VC_append, List.map_append, p2, hps]
     have : VC [Rec.node (.clauseValueCheck c) []] = [(Rec.node (.clauseValueCheck c) []).status] := by
@@ -686,10 +711,10 @@ theorem emit_then_pure {α} (c : ClauseCheck) (x : α) (st st' : St) (a : α)
   exact ⟨ea, by rw [es, e1]; rfl⟩
 
 theorem cf_unary (env : Env) (fuel : Nat) (ih : AllInv env fuel) (q : List QueryPart) (op : CmpOp) (opNot inverse : Bool)
-    (msg : Option Str) : Inv (unaryOperation env (fuel + 1) q op opNot inverse msg) POp := by
+    (msg : Option Str) : Inv (unaryOperation env (fuel + 1) q op opNot inverse msg) POpV := by
   intro st res st' h
   have key : ∃ (lhs : List QR) (s1 : St) (ps1 : List Rec), st.recs = st.recs ∧ s1.recs = ps1.reverse ++ st.recs ∧ ConsistentList ps1 = true ∧ OnlyF ps1 ∧
-      ∃ ps2, st'.recs = ps2.reverse ++ s1.recs ∧ ConsistentList ps2 = true ∧ POp res ps2 := by
+      ∃ ps2, st'.recs = ps2.reverse ++ s1.recs ∧ ConsistentList ps2 = true ∧ POp res ps2 ∧ AllVC ps2 := by
     cases hq : q.getLast? with
     | none =>
       simp only [unaryOperation, hq] at h
@@ -728,13 +753,13 @@ theorem cf_unary (env : Env) (fuel : Nat) (ih : AllInv env fuel) (q : List Query
                     · exact absurd hh hb
                   simp only [hb', Bool.false_eq_true, ↓reduceIte]
                   exact inv_emit_leaf _ _ (by simp [Rec.status, RecKind.status?, hb'])) lhs
-          obtain ⟨ps2, e2, c2, p2⟩ := hm s1 rs s3 h5
-          refine ⟨ps2, by rw [es3]; exact e2, c2, ?_⟩
+          obtain ⟨ps2, e2, c2, p2, v2⟩ := hm s1 rs s3 h5
+          refine ⟨ps2, by rw [es3]; exact e2, c2, ?_, v2⟩
           rw [eres]; exact p2
         · by_cases hr : emptyExprNoValue opNot inverse = true
           · simp only [hr, ↓reduceIte] at h4
             obtain ⟨ea, er⟩ := emit_then_pure _ _ _ _ _ h4
-            refine ⟨[_], er, by simp [ConsistentList, Consistent, nodeOk_valueCheck], ?_⟩
+            refine ⟨[_], er, by simp [ConsistentList, Consistent, nodeOk_valueCheck], ?_, AllVC_leaf _⟩
             rw [ea]
             right
             exact ⟨true, by rw [VC_single, status_valueCheck]; rfl, rfl⟩
@@ -744,13 +769,13 @@ theorem cf_unary (env : Env) (fuel : Nat) (ih : AllInv env fuel) (q : List Query
               · exact absurd hh hr
             simp only [hr', Bool.false_eq_true, ↓reduceIte] at h4
             obtain ⟨ea, er⟩ := emit_then_pure _ _ _ _ _ h4
-            refine ⟨[_], er, by simp [ConsistentList, Consistent, nodeOk_valueCheck], ?_⟩
+            refine ⟨[_], er, by simp [ConsistentList, Consistent, nodeOk_valueCheck], ?_, AllVC_leaf _⟩
             rw [ea]
             right
             exact ⟨false, by rw [VC_single, status_valueCheck]; rfl, rfl⟩
       · split at h4
         · obtain ⟨eres, es3⟩ := M.pure_ok h4
-          refine ⟨[], by rw [es3]; rfl, rfl, ?_⟩
+          refine ⟨[], by rw [es3]; rfl, rfl, ?_, AllVC_nil⟩
           rw [eres]; exact Or.inl rfl
         · obtain ⟨rs, s3, h5, h6⟩ := M.bind_ok h4
           obtain ⟨eres, es3⟩ := M.pure_ok h6
@@ -770,11 +795,12 @@ theorem cf_unary (env : Env) (fuel : Nat) (ih : AllInv env fuel) (q : List Query
                 · have hb' : b = false := by cases b <;> simp_all
                   simp only [hb', Bool.false_eq_true, ↓reduceIte] at hb2
                   exact inv_emit_leaf _ _ (by simp [Rec.status, RecKind.status?, hb']) st0 a0 st0' hb2) lhs
-          obtain ⟨ps2, e2, c2, p2⟩ := hm s1 rs s3 h5
-          refine ⟨ps2, by rw [es3]; exact e2, c2, ?_⟩
+          obtain ⟨ps2, e2, c2, p2, v2⟩ := hm s1 rs s3 h5
+          refine ⟨ps2, by rw [es3]; exact e2, c2, ?_, v2⟩
           rw [eres]; exact p2)
-  obtain ⟨lhs, s1, ps1, _, e1, c1, f1, ps2, e2, c2, p2⟩ := key
-  refine ⟨ps1 ++ ps2, by rw [e2, e1, List.reverse_append, List.append_assoc], by rw [consList_append, c1, c2]; rfl, ?_⟩
+  obtain ⟨lhs, s1, ps1, _, e1, c1, f1, ps2, e2, c2, p2, v2⟩ := key
+  refine ⟨ps1 ++ ps2, by rw [e2, e1, List.reverse_append, List.append_assoc], by rw [consList_append, c1, c2]; rfl, ?_,
+    AllVC_append (AllVC_onlyF f1) v2⟩
   cases res with
   | emptyQueryResult s =>
     simp only [POp, VC_append, VC_onlyF f1, List.nil_append] at p2 ⊢
@@ -791,9 +817,11 @@ def resStatus (all : Bool) : EvaluationResult → Status
   | .emptyQueryResult s => s
   | .queryValueResult rs => clauseStatus all (rs.map (·.2))
 
-theorem nodeOk_gcbc_of_POp (all : Bool) (res : EvaluationResult) (ps : List Rec) (h : POp res ps) :
+theorem nodeOk_gcbc_of_POp (all : Bool) (res : EvaluationResult) (ps : List Rec) (hh : POpV res ps) :
     nodeOk (.guardClauseBlockCheck (resStatus all res)) ps = true := by
+  obtain ⟨h, hv⟩ := hh
   simp only [nodeOk]
+  rw [show ((lineRecs ps).all isValueCheck) = true from hv, Bool.true_and]
   change (if (VC ps).isEmpty then true else
     (resStatus all res == clauseStatus true ((VC ps).map (· == Status.pass)) ||
      resStatus all res == clauseStatus false ((VC ps).map (· == Status.pass)))) = true
@@ -811,12 +839,14 @@ theorem nodeOk_gcbc_of_POp (all : Bool) (res : EvaluationResult) (ps : List Rec)
     · simp only [he, Bool.false_eq_true, ↓reduceIte, h, resStatus]
       cases all <;> simp
 
-theorem POp_prefix {res : EvaluationResult} {ps1 ps2 : List Rec} (h1 : OnlyF ps1) (h2 : POp res ps2) : POp res (ps1 ++ ps2) := by
+theorem POp_prefix {res : EvaluationResult} {ps1 ps2 : List Rec} (h1 : OnlyF ps1) (hh : POpV res ps2) : POpV res (ps1 ++ ps2) := by
+  obtain ⟨h2, hv⟩ := hh
+  refine ⟨?_, AllVC_append (AllVC_onlyF h1) hv⟩
   cases res with
   | emptyQueryResult s => simp only [POp, VC_append, VC_onlyF h1, List.nil_append] at h2 ⊢; exact h2
   | queryValueResult rs => simp only [POp, VC_append, VC_onlyF h1, List.nil_append] at h2 ⊢; exact h2
 
-theorem finish_clause {all : Bool} {res : EvaluationResult} {ps : List Rec} {s1 st' : St} {a : Status} (hp : POp res ps)
+theorem finish_clause {all : Bool} {res : EvaluationResult} {ps : List Rec} {s1 st' : St} {a : Status} (hp : POpV res ps)
     (h2 : (match res with
       | .emptyQueryResult s => (pure s : M Status)
       | .queryValueResult rs => pure (clauseStatus all (rs.map (fun x : QR × Bool => x.2)))) s1 = .ok (a, st')) :
